@@ -33,6 +33,7 @@ SAMPLE_STYLES = {
     "alpha": ["A", "B", "C", "D"],
     "numeric": ["1", "2", "10", "21"],  # forced to str by the loader: "1" < "10" < "2" < "21"
     "mixed": ["S1", "S10", "S2", "T"],
+    "many": ["S%d" % i for i in range(12)],  # more than ten samples: "S10" < "S2" in sorted order, and the loader's summary branch
 }
 
 
@@ -57,6 +58,8 @@ def gen_table(rng, allow_reject=False, degenerate=None, want_empty=False):
     ids, numeric = MUT_STYLES[ms]
     ss = rng.choice(list(SAMPLE_STYLES))
     nsamp = rng.choice([1, 2, 2, 3, 3, 4])
+    if ss == "many":
+        nsamp = rng.choice([11, 12])
     if degenerate:
         nsamp = max(nsamp, 2)
     sids = rng.sample(SAMPLE_STYLES[ss], nsamp)
